@@ -297,9 +297,21 @@ func (pc *pCtx) p7Lockset(s *pSite, wantRaces, wantOrder bool) {
 			}
 		}
 	}
-	if len(s.Teardowns) > 0 {
+	// finalizers registered with a subscription (subscriptions.Add(func() { ... })) run when the unsubscription
+	// happens, on whichever goroutine it happens: they belong to the teardown context
+	tds := append([]*ssa.Function{}, s.Teardowns...)
+	for _, fn := range s.Closures {
+		for _, b := range fn.Blocks {
+			for _, ins := range b.Instrs {
+				if call, ok := ins.(*ssa.Call); ok && call.Common().IsInvoke() && call.Common().Method.Name() == "Add" && len(call.Common().Args) == 1 {
+					tds = append(tds, s.closuresOfValue(call.Common().Args[0])...)
+				}
+			}
+		}
+	}
+	if len(tds) > 0 {
 		cd := &ctxDef{name: "teardown", fns: map[*ssa.Function]map[ssa.Value]bool{}}
-		addFns(cd, s.Teardowns)
+		addFns(cd, tds)
 		ctxs = append(ctxs, cd)
 	}
 	if len(ctxs) < 2 {
@@ -402,6 +414,8 @@ func (pc *pCtx) p7Lockset(s *pSite, wantRaces, wantOrder bool) {
 					var atomicLoads []*ssa.Call
 					atomicCell := map[*ssa.Call]*ssa.Alloc{}
 					seen := map[ssa.Value]bool{}
+					var via []viaTake
+					var curOuter *ssa.Call
 					var back func(v ssa.Value, d int)
 					back = func(v ssa.Value, d int) {
 						if v == nil || seen[v] || d > 12 {
@@ -460,6 +474,41 @@ func (pc *pCtx) p7Lockset(s *pSite, wantRaces, wantOrder bool) {
 							if !t.Common().IsInvoke() {
 								for _, a := range t.Common().Args {
 									back(a, d+1)
+								}
+								// a value a local helper closure returns (result, ok := snapshot()): what the helper
+								// read from shared cells counts as taken at the call
+								for _, cf := range s.calleesOf(t.Common()) {
+									if !s.InTree[cf] || cf == fn || cf.Blocks == nil || d > 8 {
+										continue
+									}
+									outer := curOuter
+									if t.Parent() == fn {
+										curOuter = t
+									}
+									n0, m0 := len(loads), len(atomicLoads)
+									for _, cb := range cf.Blocks {
+										if len(cb.Instrs) == 0 {
+											continue
+										}
+										if ret, ok := cb.Instrs[len(cb.Instrs)-1].(*ssa.Return); ok {
+											for _, r := range ret.Results {
+												back(r, d+1)
+											}
+										}
+									}
+									if curOuter != nil {
+										for _, ld := range loads[n0:] {
+											if al, ok := s.root(ld.X).(*ssa.Alloc); ok && ld.Parent() != fn {
+												via = append(via, viaTake{curOuter, al, false})
+											}
+										}
+										for _, ld := range atomicLoads[m0:] {
+											if ld.Parent() != fn {
+												via = append(via, viaTake{curOuter, atomicCell[ld], true})
+											}
+										}
+									}
+									curOuter = outer
 								}
 							}
 						case *ssa.BinOp:
@@ -572,6 +621,16 @@ func (pc *pCtx) p7Lockset(s *pSite, wantRaces, wantOrder bool) {
 							note = fmt.Sprintf("%s reads %s atomically (%s) and delivers what it read with no lock held since the reading (%s); the function runs in %d concurrent contexts, so a newer reading can reach the downstream first", funcKey(fn), cellName(atomicCell[ld]), pc.pos(ld.Pos()), pc.pos(ins.Pos()), len(inCtxs[fn]))
 						}
 					}
+					for _, vt := range via {
+						if len(inCtxs[fn]) < 2 {
+							continue
+						}
+						relevant = true
+						if !s.handedOver(fn, ls, ls[vt.at], ls[ins]) {
+							ok2 = false
+							note = fmt.Sprintf("%s delivers what a helper read from %s (%s) with no lock held from that call to the delivery (%s); the function runs in %d concurrent contexts, so a newer reading can reach the downstream first", funcKey(fn), cellName(vt.cell), pc.pos(vt.at.Pos()), pc.pos(ins.Pos()), len(inCtxs[fn]))
+						}
+					}
 					if !relevant && len(inCtxs[fn]) < 2 {
 						continue
 					}
@@ -630,8 +689,29 @@ func (pc *pCtx) p7Lockset(s *pSite, wantRaces, wantOrder bool) {
 						if al := s.cellOf(t.Map); al != nil {
 							rec(al, cname, accessInfo{fn: fn, ins: ins, write: true, locks: ls[ins]})
 						}
+					case *ssa.Range:
+						// ranging over a map that was read out of a shared cell touches the map itself, wherever (and
+						// under whichever lock) the cell was read: `pending := inners` under the lock, `for range pending` after it
+						if _, isMap := t.X.Type().Underlying().(*types.Map); isMap {
+							if al := s.cellOf(t.X); al != nil {
+								rec(al, cname, accessInfo{fn: fn, ins: ins, locks: ls[ins]})
+							}
+						}
+					case *ssa.Lookup:
+						if _, isMap := t.X.Type().Underlying().(*types.Map); isMap {
+							if al := s.cellOf(t.X); al != nil {
+								rec(al, cname, accessInfo{fn: fn, ins: ins, locks: ls[ins]})
+							}
+						}
 					case *ssa.Call:
 						c := t.Common()
+						if bi, ok := c.Value.(*ssa.Builtin); ok && len(c.Args) > 0 && (bi.Name() == "delete" || bi.Name() == "len") {
+							if _, isMap := c.Args[0].Type().Underlying().(*types.Map); isMap {
+								if al := s.cellOf(c.Args[0]); al != nil {
+									rec(al, cname, accessInfo{fn: fn, ins: ins, write: bi.Name() == "delete", locks: ls[ins]})
+								}
+							}
+						}
 						if f := c.StaticCallee(); f != nil && len(c.Args) > 0 {
 							if al, ok := s.root(c.Args[0]).(*ssa.Alloc); ok {
 								if pkgPathOf(f) == "sync/atomic" {
@@ -926,4 +1006,11 @@ func (s *pSite) atomicPointees(v ssa.Value) []*ssa.Alloc {
 		}
 	}
 	return out
+}
+
+// viaTake: a reading of a shared cell made inside a helper closure whose result the caller delivers; `at` is the call.
+type viaTake struct {
+	at     *ssa.Call
+	cell   *ssa.Alloc
+	atomic bool
 }
